@@ -16,7 +16,8 @@
 // of internal/core, which is swapped for a no-op through the verif hook verifapi/c14.SetPlanPrinter - nothing
 // reaches stderr or the trace), and the committer timestamps of the commits (tmode, planlib.TimesFor: growing,
 // equal, falling, random, skewed).  Kind wide: forks of more than eight branches and octopus merges of more than
-// eight parents.
+// eight parents.  Kinds reuse-* (reuse.go): ONE Pipeline object and the same item instances run on several commit
+// selections of one repository, every run judged like the run of a fresh pipeline.
 package main
 
 import (
@@ -58,7 +59,11 @@ const entA = "c02run.a"
 type shared struct {
 	id   map[plumbing.Hash]int
 	logs [2][]Sx
+	// error path (kinds reuse-*, a run with mode >= 10): the failAt-th Consume call of the providing item returns an error
+	failAt, calls int
 }
+
+var errInjected = fmt.Errorf("injected failure")
 
 // state of one instance; slices are shared by a by-value copy, so Fork must copy them
 type recState struct {
@@ -128,6 +133,10 @@ func (it *recCopy) Initialize(*git.Repository) error {
 	return nil
 }
 func (it *recCopy) Consume(deps map[string]interface{}) (map[string]interface{}, error) {
+	it.sh.calls++
+	if it.sh.failAt > 0 && it.sh.calls == it.sh.failAt {
+		return nil, errInjected
+	}
 	it.st.consume(it.sh, 0, deps)
 	return map[string]interface{}{entA: len(it.st.seen)}, nil
 }
@@ -613,6 +622,16 @@ func main() {
 				}
 				if f, ok := cs.Field("opts"); ok {
 					sp.opts = f.Args()[0].Int()
+				}
+				if f, ok := cs.Field("drops"); ok {
+					var drops []int
+					for _, x := range f.Args() {
+						drops = append(drops, x.Int())
+					}
+					runAll(c, ins, 1)
+					ins = ins[:0]
+					c.Emit(runBigReuse(bigIn{sp: sp, drops: drops})...)
+					continue
 				}
 				runAll(c, ins, 1)
 				ins = ins[:0]
